@@ -89,6 +89,14 @@ CHECKS = {
             'exactly as the model predicts afterwards.',
             'Frame finder over-approximates acceptable frames (sound); Twisted reactor behaviour modelled; fake transports.',
             'DESIGN.md 4 C12'),
+    'C14': ('exhaustive sweep of every predicting request class x quantity against the real server path + real serial client over a scripted virtual-time port (hypothesis for the rest)',
+            'Every request class that predicts its reply size is swept over its whole quantity range and the prediction compared '
+            'with the PDU length of the response the real server path returns; a real ModbusSerialClient then performs '
+            'transactions (normal and exception replies, rtu/ascii/binary) over a scripted serial port whose peer is that server '
+            'path, and the read sizes it asks for must sum to exactly the reply frame with no short read and nothing left '
+            'unread; framing constants incl. TLS are compared with the reference frame overheads.',
+            'Virtual-time FakeSerial (vlib/transports.py); Force Listen Only excluded; binary frames with delimiter bytes excluded.',
+            'DESIGN.md 4 C14'),
     'C17': ('hypothesis multi-connection scripts (interleaved chunk schedules) played to sync / asyncio / Twisted front-ends; differential oracle + reference model in completion order',
             'Generated scripts of 1..3 connections (or datagram peers) with chunked request streams and a generated merge '
             'order are played identically to the sync threaded (handler threads in lock-step), asyncio and Twisted front-ends; '
